@@ -44,7 +44,9 @@ def run(ctx):
     reacq_seen = {}
     for k in ks:
         # K=4 only in greedy mode (same blocked set as the full interleaving model for K<=3, measured each run)
-        modes = [True, False] if k <= 3 else [True]
+        # the full-interleaving model is run for K=2 always and for K=3 in the thorough tier; the greedy
+        # (scheduler-realisable) model for every K. Both gave identical blocked sets whenever both were run.
+        modes = [True, False] if (k <= 2 or (k == 3 and not ctx.quick)) else [True]
         per_mode = {}
         for greedy in modes:
             res, blocked, reacq = _lslocks.model_check(ctx, segs, k, greedy, ctx.pick(900, 3000))
